@@ -390,7 +390,6 @@ func (c *Channel) TouchMessage(clientID int64, id MessageID, clientMsgTimeout ti
 	if err != nil {
 		return err
 	}
-	c.removeFromInFlightPQ(msg)
 
 	newTimeout := time.Now().Add(clientMsgTimeout)
 	if newTimeout.Sub(msg.deliveryTS) >=
@@ -414,7 +413,6 @@ func (c *Channel) FinishMessage(clientID int64, id MessageID) error {
 	if err != nil {
 		return err
 	}
-	c.removeFromInFlightPQ(msg)
 	if c.e2eProcessingLatencyStream != nil {
 		c.e2eProcessingLatencyStream.Insert(msg.Timestamp)
 	}
@@ -433,7 +431,6 @@ func (c *Channel) RequeueMessage(clientID int64, id MessageID, timeout time.Dura
 	if err != nil {
 		return err
 	}
-	c.removeFromInFlightPQ(msg)
 	atomic.AddUint64(&c.requeueCount, 1)
 
 	if timeout == 0 {
@@ -544,6 +541,8 @@ func (c *Channel) pushInFlightMessage(msg *Message) error {
 }
 
 // popInFlightMessage atomically removes a message from the in-flight dictionary
+// and from the in-flight pqueue (in one critical section, so that a concurrent
+// Empty() cannot replace the pqueue in between and leave msg.index stale)
 func (c *Channel) popInFlightMessage(clientID int64, id MessageID) (*Message, error) {
 	c.inFlightMutex.Lock()
 	msg, ok := c.inFlightMessages[id]
@@ -556,6 +555,10 @@ func (c *Channel) popInFlightMessage(clientID int64, id MessageID) (*Message, er
 		return nil, errors.New("client does not own message")
 	}
 	delete(c.inFlightMessages, id)
+	if msg.index != -1 {
+		// not already popped off the pqueue
+		c.inFlightPQ.Remove(msg.index)
+	}
 	c.inFlightMutex.Unlock()
 	return msg, nil
 }
@@ -563,17 +566,6 @@ func (c *Channel) popInFlightMessage(clientID int64, id MessageID) (*Message, er
 func (c *Channel) addToInFlightPQ(msg *Message) {
 	c.inFlightMutex.Lock()
 	c.inFlightPQ.Push(msg)
-	c.inFlightMutex.Unlock()
-}
-
-func (c *Channel) removeFromInFlightPQ(msg *Message) {
-	c.inFlightMutex.Lock()
-	if msg.index == -1 {
-		// this item has already been popped off the pqueue
-		c.inFlightMutex.Unlock()
-		return
-	}
-	c.inFlightPQ.Remove(msg.index)
 	c.inFlightMutex.Unlock()
 }
 
